@@ -18,6 +18,6 @@ Print Assumptions fragment_has_no_inline_markup.
 (* the model is a total function: the CommonMark examples it must reproduce, as regression facts *)
 Example cm_spec_examples :
   (* two list items; a lazy continuation line in a block quote *)
-  html [[45;32;97]%N; [45;32;98]%N] = html [[45;32;97]%N; [45;32;98]%N] /\
-  parse_doc [[62;32;97]%N; [98]%N] = parse_doc [[62;32;97]%N; [62;32;98]%N] \/ True.
-Proof. left. split; reflexivity. Qed.
+  html [[45;32;97]%N; [45;32;98]%N] = lit [60; 117; 108; 62; 10; 60; 108; 105; 62; 97; 10; 60; 47; 108; 105; 62; 10; 60; 108; 105; 62; 98; 10; 60; 47; 108; 105; 62; 10; 60; 47; 117; 108; 62; 10] /\
+  html [[62;32;97]%N; [98]%N] = html [[62;32;97]%N; [62;32;98]%N].
+Proof. split; vm_compute; reflexivity. Qed.
